@@ -40,9 +40,18 @@ RULE = ("case 'conv' = (generated DBC matrix with unique frame names, signal nam
         "stands for the frames of that file X sends, then the frames one of whose signals X receives, in file order.  (signals) --signals with one to three names or "
         "glob patterns (names that occur in several frames, overlapping patterns, unknown names), alone, with --frames or with a frame-level "
         "option; the free signals of the output (the DBC pseudo frame) are observed as a last frame and must be every signal a pattern "
-        "selects, pattern by pattern and frame by frame, unchanged.")
-PARTIAL = ["compressFrame (C16), deleteObsoleteDefines (C11), signalNameFromAttrib and the ARXML/PDU-container rewrite are "
-           "not modelled", "only DBC input and output files", "the selection options are specified by the model of copy.py (C12), not by "
+        "selects, pattern by pattern and frame by frame, unchanged.  (definitions) --deleteObsoleteDefines, alone, with --deleteSignalAttributes / "
+        "--deleteFrameAttributes or with one or two other options, and the same calls without the flag as control, on input files that also "
+        "define an ECU attribute (carried by some, one or no ECU); judged as the call without the flag, and - unless an option removes frames, "
+        "signals or ECUs - the attribute definitions of the output (frame, signal, ECU level) are observed as the name of a last empty frame "
+        "and must be all of them without the flag, exactly those still carried by something with it.  Lists documented as lists of NAMES "
+        "(deleteFrame, setFrameFd, unsetFrameFd, deleteSignalAttributes, deleteFrameAttributes, the old names of renameEcu / renameFrame / "
+        "renameSignal) hold, in a quarter of the cases, an entry with `*`, `?` or `[..]` that is no name but would select existing items as a "
+        "pattern (alone, before or after the names): nothing may happen for it.")
+PARTIAL = ["compressFrame (C16), signalNameFromAttrib and the ARXML/PDU-container rewrite are not modelled",
+           "deleteObsoleteDefines has no field in the model: judged as the call without it on frames, signals, attribute values and ECUs; the "
+           "expected attribute definitions are computed by the harness (definitions_expected) and handed to the Lean judge as the name of a "
+           "frame of the input, only for calls whose other options leave all frames, signals and ECUs in place", "only DBC input and output files", "the selection options are specified by the model of copy.py (C12), not by "
            "an independent clause",
            "merge: whole files, frame= and ecu= selectors, reduced to the --frames clause over the union of the files.  That clause lists exactly "
            "the ECUs the selected frames refer to, so an ECU-list entry without a frame cannot be expected through it: the ECU list of the main "
@@ -120,14 +129,18 @@ def gen_matrix(rng):
     return {"ecus": ecus, "frames": frames}
 
 
-def build(m):
+def build(m, ecu_attrs=None):
     db = cm.CanMatrix()
     db.add_frame_defines("FrInt", "INT 0 100")
     db.add_frame_defines("FrStr", "STRING")
     db.add_signal_defines("SgInt", "INT 0 100")
     db.add_signal_defines("SgStr", "STRING")
+    if ecu_attrs is not None:
+        db.add_ecu_defines("EcInt", "INT 0 100")
     for e in m["ecus"]:
         db.add_ecu(cm.Ecu(e))
+    for e, v in ecu_attrs or ():
+        db.ecu_by_name(e).add_attribute("EcInt", v)
     for f in m["frames"]:
         fr = cm.Frame(f["name"], arbitration_id=cm.ArbitrationId(f["id"], f["ext"]), size=f["size"], transmitters=list(f["tx"]), is_fd=f["fd"])
         for s in f["sigs"]:
@@ -229,24 +242,54 @@ def pick(rng, pool, extra=("Nope",), lo=1, hi=2):
     return rng.sample(cands, min(len(cands), rng.randint(lo, hi)))
 
 
+def pattern_for(rng, names, inner_only=False):
+    """a text with fnmatch characters (`*`, `?`, `[..]`) that is the name of none of `names` but, read as a pattern, selects at least
+    one of them.  inner_only: no `*` at the beginning or the end (the rename methods give those a meaning of their own)"""
+    names = [n for n in names if n]
+    if not names:
+        return "No*pe"
+    n = rng.choice(names)
+    k = rng.randrange(len(n))
+    forms = [n[:k] + "?" + n[k + 1:], n[:k] + "[" + n[k] + "]" + n[k + 1:], "?" * len(n),
+             n[:k] + "[" + min(n[k], "A") + "-" + max(n[k], "z") + "]" + n[k + 1:]]
+    if len(n) > 1:
+        forms.append(n[:1] + "*" + n[-1:])
+    if not inner_only:
+        forms += [n[:k] + "*", "*" + n[k + 1:], "*", n[:max(1, k)] + "*", "*" + n[-1:]]
+    return rng.choice(forms)
+
+
+def with_pattern(rng, entries, names, p=0.3, inner_only=False):
+    """the list of an option that is documented to take names, with (probability p) one entry that is no name but would select existing
+    items if it were read as a pattern: alone, before or after the names"""
+    if rng.random() >= p:
+        return entries
+    pat = pattern_for(rng, names, inner_only)
+    r = rng.random()
+    out = [pat] if r < 0.4 else ([pat] + entries if r < 0.7 else entries + [pat])
+    return [e for k, e in enumerate(out) if e not in out[:k]]
+
+
 def gen_option(rng, m, name):
     fnames, snames = names_of(m)
     sizes = sorted({f["size"] for f in m["frames"]})
     if name == "deleteEcu":
-        return pick(rng, m["ecus"], ("Nope", "ECU_*", "*"))
+        return with_pattern(rng, pick(rng, m["ecus"], ("Nope", "ECU_*", "*")), m["ecus"], 0.2)
     if name == "renameEcu":
-        return [[e, "New_" + e] for e in pick(rng, m["ecus"])]
+        olds = with_pattern(rng, pick(rng, m["ecus"]), m["ecus"], 0.25)
+        return [[e, "New_" + "".join(ch for ch in e if ch.isalnum() or ch == "_")] for e in olds]
     if name == "deleteFrame":
-        return pick(rng, fnames)
+        return with_pattern(rng, pick(rng, fnames), fnames, 0.35)
     if name == "renameFrame":
         r = rng.random()
         if r < 0.2:
             return [["Frame*", "Rahmen"]]
         if r < 0.3:
             return [["*0", "_null"]]
-        return [[n, "New_" + n] for n in pick(rng, fnames)]
+        olds = with_pattern(rng, pick(rng, fnames), fnames, 0.2, inner_only=True)
+        return [[n, "New_" + "".join(ch for ch in n if ch.isalnum() or ch == "_")] for n in olds]
     if name == "deleteSignal":
-        names = pick(rng, snames, ("Nope", "sig*", "S?eed*"))
+        names = with_pattern(rng, pick(rng, snames, ("Nope", "sig*", "S?eed*")), snames, 0.15)
         by_role = signals_by_role(m)
         if by_role and rng.random() < 0.4:
             # a signal chosen by what it is in its frame (the multiplexer while multiplexed signals stay, one or all of the multiplexed
@@ -263,15 +306,16 @@ def gen_option(rng, m, name):
             return [["sig*", "signal"]]
         if r < 0.3:
             return [["*1", "_one"]]
-        return [[n, "New_" + n] for n in pick(rng, snames)]
+        olds = with_pattern(rng, pick(rng, snames), snames, 0.2, inner_only=True)
+        return [[n, "New_" + "".join(ch for ch in n if ch.isalnum() or ch == "_")] for n in olds]
     if name in ("deleteZeroSignals", "deleteObsoleteEcus"):
         return True
     if name == "deleteSignalAttributes":
-        return pick(rng, ["SgInt", "SgStr"], ("Nope",))
+        return with_pattern(rng, pick(rng, ["SgInt", "SgStr"], ("Nope",)), ["SgInt", "SgStr"], 0.25)
     if name == "deleteFrameAttributes":
-        return pick(rng, ["FrInt", "FrStr"], ("Nope",))
+        return with_pattern(rng, pick(rng, ["FrInt", "FrStr"], ("Nope",)), ["FrInt", "FrStr"], 0.25)
     if name in ("setFrameFd", "unsetFrameFd"):
-        return pick(rng, fnames)
+        return with_pattern(rng, pick(rng, fnames), fnames, 0.3)
     if name in ("skipLongDlc", "cutLongFrames"):
         base = rng.choice(sizes) if sizes else 8
         return max(0, base + rng.choice([-1, 0, 0, 1])) if rng.random() < 0.8 else rng.choice([0, 1, 8, 64])
@@ -424,6 +468,11 @@ def reduce_real(real):
                 return None                  # merge_ecu_listing_note
         o["frames"] = names
         return m, o
+    if real["kind"] == "defines":
+        m = real["main"]
+        if definitions_judged(real):
+            m = dict(m, frames=m["frames"] + [definitions_frame(definitions_expected(real))])
+        return m, o
     free = select_signals(real["main"], real["signals"])
     if free is None:
         return None
@@ -437,6 +486,63 @@ def make_case(real, cli):
     if mo is None:
         return None
     return {"op": "conv", "c": {"m": mo[0], "o": mo[1], "cli": cli, "real": real}}
+
+
+# ---------------------------------------------------------------------------------------------------------------------
+# --deleteObsoleteDefines ("this will remove all defines which no attribute exist for", docs/cli.rst): an option about the attribute
+# DEFINITIONS of the matrix, which the judge's matrix has no place for.  On everything the judge's matrix holds - frames, signals, their
+# attribute VALUES, ECUs - the documented effect is none, so a call with the flag is judged as the same call without it (kind
+# "defines"; real["flag"] says whether the flag is really given - the calls without it are the control for the definitions).
+# The definitions themselves are observed in the output (definitions_frame) whenever what is documented about them can be said
+# without re-stating what the other options do to frames and signals (definitions_judged): no other option is documented to touch a
+# definition, so without the flag all of them are there; with it exactly those are there for which one frame / signal / ECU carries a
+# value, after --deleteSignalAttributes / --deleteFrameAttributes (earlier in the pipeline) took theirs away.  They travel as the NAME
+# of a last frame without content (identifier 0, no length, no signal, no sender: no option of these calls selects or changes it),
+# expected name in case["c"]["m"], observed name made from the definitions of the re-read output.
+# ---------------------------------------------------------------------------------------------------------------------
+ECU_ATTRS = {"EcInt"}
+DEFINITIONS = {"frame": ["FrInt", "FrStr"], "signal": ["SgInt", "SgStr"], "ecu": ["EcInt"]}
+CHANGES_USERS = {"frames", "ecus", "deleteFrame", "skipLongDlc", "cutLongFrames", "deleteSignal", "deleteZeroSignals", "deleteEcu"}
+
+
+def definitions_frame(defs):
+    name = "DEFINITIONS " + " ".join("%s=%s" % (k, "+".join(sorted(defs[k]))) for k in ("frame", "signal", "ecu"))
+    return {"name": name, "id": 0, "ext": False, "size": 0, "fd": False, "tx": [], "sigs": [], "attrs": []}
+
+
+def definitions_judged(real):
+    """the options of the call leave every frame, signal and ECU in place (they may rename them, move them, take attributes away)"""
+    return real["kind"] == "defines" and not (set(real["o"]) & CHANGES_USERS)
+
+
+def definitions_expected(real):
+    if not real["flag"]:
+        return DEFINITIONS
+    m, o = real["main"], real["o"]
+    used = {"frame": {kv[0] for f in m["frames"] for kv in f["attrs"]} - set(o.get("deleteFrameAttributes") or []),
+            "signal": {kv[0] for f in m["frames"] for s in f["sigs"] for kv in s["attrs"]} - set(o.get("deleteSignalAttributes") or []),
+            "ecu": {"EcInt"} if real["ecu_attrs"] else set()}
+    return {k: [d for d in DEFINITIONS[k] if d in used[k]] for k in DEFINITIONS}
+
+
+def definitions_observed(db):
+    return {"frame": [d for d in db.frame_defines if d in USER_ATTRS], "signal": [d for d in db.signal_defines if d in USER_ATTRS],
+            "ecu": [d for d in db.ecu_defines if d in ECU_ATTRS]}
+
+
+def gen_defines(rng):
+    main = gen_matrix(rng)
+    r = rng.random()
+    o = {}
+    if r < 0.35:
+        # the documented companions: take attributes away, then the definitions nothing carries a value for any more
+        for name in rng.sample(["deleteSignalAttributes", "deleteFrameAttributes"], rng.choice([1, 1, 2])):
+            o[name] = gen_option(rng, main, name)
+    elif r < 0.75:
+        for name in rng.sample(OPTIONS, rng.choice([1, 1, 2])):
+            o[name] = gen_option(rng, main, name)
+    ecu_attrs = [[e, str(rng.randint(0, 9))] for e in main["ecus"] if rng.random() < 0.3] if rng.random() < 0.7 else []
+    return {"kind": "defines", "main": main, "o": o, "flag": rng.random() < 0.8, "ecu_attrs": ecu_attrs}
 
 
 def gen_ecu_selector(rng, om, main):
@@ -542,7 +648,7 @@ def gen(rng, tier, shard, nshards):
             o[name] = gen_option(rng, m, name)
         yield {"op": "conv", "c": {"m": m, "o": o, "cli": rng.random() < 0.4}}
     extra = {"quick": 400, "thorough": 4000}[tier] // nshards + 1
-    for make in (gen_merge, gen_signals):
+    for make in (gen_merge, gen_signals, gen_defines):
         for _ in range(extra):
             case = make_case(make(rng), rng.random() < 0.4)
             if case is not None:
@@ -596,6 +702,9 @@ def real_call(c, d):
                     canmatrix.formats.dump(build(real["others"][k]), f, "dbc")
             items.append(path + sel_text(sel))
         extra["merge"] = ",".join(items)
+    elif real["kind"] == "defines":
+        if real["flag"]:
+            extra["deleteObsoleteDefines"] = True
     else:
         extra["signals"] = ",".join(real["signals"])
     return real["main"], real["o"], extra
@@ -606,7 +715,8 @@ def observe(case):
     d = tempfile.mkdtemp(prefix="c18_")
     try:
         m_in, o_in, extra = real_call(c, d)
-        db = build(m_in)
+        real = c.get("real") or {}
+        db = build(m_in, real.get("ecu_attrs"))
         src = os.path.join(d, "in.dbc")
         dst = os.path.join(d, "out.dbc")
         with open(src, "wb") as f:
@@ -618,7 +728,7 @@ def observe(case):
                 if c.get("cli"):
                     from click.testing import CliRunner
                     res = CliRunner().invoke(canmatrix.cli.convert.cli_convert,
-                                             ["-s"] + cli_args(o_in) + ["--%s=%s" % kv for kv in extra.items()] + [src, dst])
+                                             ["-s"] + cli_args(o_in) + cli_args(extra) + [src, dst])
                     if res.exception is not None and not isinstance(res.exception, SystemExit):
                         raised = type(res.exception).__name__ + ": " + str(res.exception)[:120]
                     elif res.exit_code != 0:
@@ -632,6 +742,8 @@ def observe(case):
                 with open(dst, "rb") as f:
                     db2 = canmatrix.formats.load_flat(f, "dbc")
                 out = abstract(db2)
+                if real and definitions_judged(real):
+                    out["frames"].append(definitions_frame(definitions_observed(db2)))
         return {"raised": raised, "out": out}
     finally:
         shutil.rmtree(d, ignore_errors=True)
@@ -697,6 +809,27 @@ def features(case, impl):
         main_ids = {(f["id"], f["ext"]) for f in real["main"]["frames"]}
         if any((f["id"], f["ext"]) in main_ids for om in real["others"] for f in om["frames"]):
             yield "merge:identifier of the main file in another file"
+    if real and real["kind"] == "defines":
+        yield "opt:deleteObsoleteDefines" if real["flag"] else "definitions:call without deleteObsoleteDefines (control)"
+        yield "definitions:" + ("observed and judged" if definitions_judged(real) else "not judged (an option removes frames, signals or ECUs)")
+        if real["flag"]:
+            for k, ds in sorted(definitions_expected(real).items()):
+                yield "definitions:%s, %d of %d in use" % (k, len(ds), len(DEFINITIONS[k]))
+            # signal definitions whose users come in another order than the definitions (one signal with both, or the user of the
+            # second before the user of the first)
+            carriers = [[kv[0] for kv in s["attrs"] if kv[0] in USER_ATTRS] for f in m_in["frames"] for s in f["sigs"]]
+            first = {d: next((k for k, c in enumerate(carriers) if d in c), None) for d in DEFINITIONS["signal"]}
+            if None not in first.values():
+                yield "definitions:first users of the signal definitions %s" % (
+                    "are one signal" if first["SgInt"] == first["SgStr"] else ("in definition order" if first["SgInt"] < first["SgStr"] else "in reverse order"))
+    for opt, pool in (("deleteFrame", "f"), ("setFrameFd", "f"), ("unsetFrameFd", "f"), ("renameFrame", "f"), ("renameEcu", "e"), ("renameSignal", "s"),
+                      ("deleteSignalAttributes", "a"), ("deleteFrameAttributes", "a")):
+        for p in o.get(opt) or []:
+            p = p if isinstance(p, str) else p[0]
+            if any(ch in p for ch in "*?[") and not (opt.startswith("rename") and (p[:1] == "*" or p[-1:] == "*")):
+                names = {"f": [f["name"] for f in m_in["frames"]], "e": m_in["ecus"], "s": [s["name"] for f in m_in["frames"] for s in f["sigs"]],
+                         "a": sorted(USER_ATTRS)}[pool]
+                yield "%s:entry that is no name, %s" % (opt, "would select as a pattern" if any(fnmatch.fnmatchcase(n, p) for n in names) else "selects nothing either way")
     if real and real["kind"] == "signals":
         yield "opt:signals"
         yield "signals:patterns=%d" % len(real["signals"])
@@ -744,6 +877,9 @@ def shrink_real(real):
         for k, om in enumerate(real["others"]):
             for om2 in less_of(om):
                 yield dict(real, others=real["others"][:k] + [om2] + real["others"][k + 1:])
+    elif real["kind"] == "defines":
+        for j in range(len(real["ecu_attrs"])):
+            yield dict(real, ecu_attrs=real["ecu_attrs"][:j] + real["ecu_attrs"][j + 1:])
     else:
         for j in range(len(real["signals"])):
             if len(real["signals"]) > 1:
@@ -753,6 +889,20 @@ def shrink_real(real):
             used = {e for f in m2["frames"] for e in f["tx"] + [r for s in f["sigs"] for r in s["receivers"]]}
             m2 = dict(m2, ecus=[e for e in m2["ecus"] if e in used])
         yield dict(real, main=m2)
+    if real["kind"] == "defines":
+        # an attribute less
+        m = real["main"]
+        for i, f in enumerate(m["frames"]):
+            for a in range(len(f["attrs"])):
+                f2 = dict(f, attrs=f["attrs"][:a] + f["attrs"][a + 1:])
+                yield dict(real, main=dict(m, frames=m["frames"][:i] + [f2] + m["frames"][i + 1:]))
+            for j, sg in enumerate(f["sigs"]):
+                for a, kv in enumerate(sg["attrs"]):
+                    if kv[0] in KIND_ATTRS:
+                        continue
+                    s2 = dict(sg, attrs=sg["attrs"][:a] + sg["attrs"][a + 1:])
+                    f2 = dict(f, sigs=f["sigs"][:j] + [s2] + f["sigs"][j + 1:])
+                    yield dict(real, main=dict(m, frames=m["frames"][:i] + [f2] + m["frames"][i + 1:]))
 
 
 def shrink_candidates(case):
@@ -786,6 +936,11 @@ def recipe(case):
         return ("canconvert " + " ".join(cli_args(real["o"]) + ["--merge=" + arg]) + " in.dbc out.dbc   (in.dbc = canmatrix.formats.dump("
                 "props.c18.build(case['c']['real']['main']), 'dbc'), other<k>.dbc likewise from case['c']['real']['others'][k]; expected: "
                 "canconvert " + " ".join(cli_args(c["o"])) + " on the file holding the frames of all of them)")
+    if real and real["kind"] == "defines":
+        return ("canconvert " + " ".join(cli_args(real["o"]) + ["--deleteObsoleteDefines"] * real["flag"]) + " in.dbc out.dbc   (in.dbc = "
+                "canmatrix.formats.dump(props.c18.build(case['c']['real']['main'], case['c']['real']['ecu_attrs']), 'dbc'); expected: what the call "
+                "without --deleteObsoleteDefines gives; the last frame of case['c']['m'], if it is called DEFINITIONS ..., names the expected "
+                "attribute definitions of the output)")
     if real:
         return ("canconvert " + " ".join(cli_args(real["o"]) + ["--signals=" + ",".join(real["signals"])]) + " in.dbc out.dbc   (in.dbc = "
                 "canmatrix.formats.dump(props.c18.build(case['c']['real']['main']), 'dbc'); expected free signals: the last frame of case['c']['m'])")
